@@ -184,6 +184,12 @@ pub struct Program {
     /// scale every small-integer value by a seeded full-width field element (real curves)
     #[serde(default)]
     pub wide: bool,
+    /// handles / errors / gate counts the model expects call by call: {"P":[{ret,err,len}..],"V":[..]}
+    #[serde(default, skip_serializing_if = "Option::is_none")]
+    pub rets: Option<serde_json::Value>,
+    /// the verifier side is not compared (the prover side ended with an error a gadget would propagate)
+    #[serde(default)]
+    pub vskip: bool,
 }
 
 impl Program {
